@@ -2,7 +2,7 @@
 EXTENDS SpLife, Json, IOUtils
 VARIABLE l
 Trace == ndJsonDeserialize(IOEnv.VERIF_TRACE)
-Verdict(t) == [case |-> t.case, fails |-> IF C17_OK(t.input.h, t.obs) THEN {} ELSE {"C17"}, drift |-> FALSE]
+Verdict(t) == [case |-> t.case, fails |-> (IF C17_OK(t.input.h, t.obs) THEN {} ELSE {"C17"}) \cup (IF C19_OK(t.input.h, t.obs) THEN {} ELSE {"C19"}), drift |-> FALSE]
 Init == l = 1
 Next == /\ l <= Len(Trace)
         /\ Serialize(ToJson(Verdict(Trace[l])) \o "\n", IOEnv.VERIF_VERDICT,
